@@ -43,6 +43,7 @@ def obligations(tier, seed):
     for n in (1, 2, 3) if tier == 'quick' else (1, 2, 3, 4): add('btcc/sym%d' % n, kind='btcc', toks=[('sym', n)])
     for tpl in (['[', '?', ']'], ['?', '(', '?', ')'], ['[', '?'], ['?', ']'], ['(', ')'], ['x', '(', ')'], ['[', '[', '?', ']'], ['0', 'x', '?'], ['-', '?'], ['O', 'P', '_', 'x', '?', '?'], ['0', 'b', '?']):
         add('btcc/tpl/' + ''.join(tpl), kind='btcc', toks=[('tpl', tpl)])
+    for n in (28, 29, 30, 31, 32): add('btcc/fn-name-len/%d' % n, kind='btcc', toks=[('tpl', list('a' * (n - 1)) + ['?', '(', '1', ')'])])          # the inline-function name is copied into char fun[30] (seed C15-2)
     add('btcc/two', kind='btcc', toks=[('sym', 1), ('sym', 1)])
     for fn_ in ('addr_to_spk', 'base58chkdec', 'bech32dec', 'spk_to_addr', 'jacobi', 'add', 'sub', 'tagged_hash', 'prefix_compact_size', 'reverse', 'int', 'hex'):
         for n in (0, 1, 3): add('btcc/fn/%s/%d' % (fn_, n), kind='btcc', toks=[('fn', fn_, n)])
@@ -52,6 +53,8 @@ def obligations(tier, seed):
     for n in (1, 2): add('btcdeb/stack-sym%d' % n, kind='main', args=[('lit', '[OP_DUP OP_DROP]'), ('sym', n)], tty=(1, 0, 1))
     for n in (1, 3, 6): add('btcdeb/-f-sym%d' % n, kind='main', args=[('pref', '-f', n), ('lit', '[OP_1]')], tty=(1, 0, 1))
     add('btcdeb/-f-long', kind='main', args=[('lit', '-f+' + 'A' * 200), ('lit', '[OP_1]')], tty=(1, 0, 1))
+    for n in (125, 126, 127, 128, 129): add('btcdeb/-f-name-len/%d' % n, kind='main', args=[('lit', '-f+' + 'A' * n), ('lit', '[OP_1]')], tty=(1, 0, 1))          # svf_parse_flags copies each name into char buf[128]
+    add('btcdeb/-f-second-name-127', kind='main', args=[('lit', '-f+NULLFAIL,-' + 'B' * 127), ('lit', '[OP_1]')], tty=(1, 0, 1))
     for n in (508, 509, 520): add('btcdeb/script-push-%d-bytes' % n, kind='main', args=[('lit', '[0x' + 'ab' * n + ']')], tty=(1, 0, 1))          # the listing line of a long push (fixed line buffer in main())
     add('btcdeb/empty-stdin', kind='main', args=[], tty=(0, 1, 1), stdin=[])
     if tier != 'quick': add('btcdeb/stdin-sym', kind='main', args=[], tty=(0, 1, 1), stdin='sym3', timeout_s=1500)
